@@ -248,6 +248,9 @@ class World:
             t = o._vals_.get(o.__class__.tag)
             if t is not None: by_tag[t] = k
         ent_of = [self.E.index(o.__class__) for o in objs]
+        # the real bookkeeping, for the slot model: the whole objects_to_save list and every object's _save_pos_
+        self.last_slots = {'queue': [None if o is None else num[o] for o in cache.objects_to_save], 'pos': [o._save_pos_ for o in objs]}
+        self.last_num = num
         return {'status': status, 'refs': refs, 'queue': queue, 'removed': sorted(removed), 'added': sorted(added)}, by_tag, by_pk, ent_of, objs
 
     def parse_trace(self, by_tag, by_pk, objs):
@@ -360,6 +363,23 @@ def canon_model(out):
 
 class FlushFailed(Exception):
     pass
+
+class SpyList(list):
+    """objects_to_save replaced by a list that remembers what it held when SessionCache.flush empties it
+    (`cache.objects_to_save[:] = ()`): the only way to see the slots as `_save_` left them"""
+    snapshot = None
+    def __setitem__(self, k, v):
+        if isinstance(k, slice) and k == slice(None, None, None) and len(v) == 0: self.snapshot = list(self)
+        list.__setitem__(self, k, v)
+
+def pos_inv(slots):
+    """PosInv of the slot model evaluated on the real session: slots and _save_pos_ values agree"""
+    q, pos = slots['queue'], slots['pos']
+    for x, p in enumerate(pos):
+        if p is not None and not (0 <= p < len(q) and q[p] == x): return False
+    for j, x in enumerate(q):
+        if x is not None and pos[x] != j: return False
+    return True
 
 class Run:
     """executes one history (recorded, or generated online with `rng`) against a World; collects flush records"""
@@ -498,6 +518,11 @@ class Run:
             if not cache.modified: return True
             ab, by_tag, by_pk, ent_of, objs = w.abstract()
         cyclic = find_cycle(ab)
+        slots = w.last_slots; num = w.last_num
+        self.count('pos-inv:' + ('holds' if pos_inv(slots) else 'FAILS'))
+        spy = None
+        if kind != 'oflush':
+            spy = cache.objects_to_save = SpyList(cache.objects_to_save)
         del w.log[:]
         err = None
         try:
@@ -505,6 +530,12 @@ class Run:
             else: flush()
         except Exception as e:
             err = e
+        # the slots as the real code left them (obj.flush(): the live list; flush(): what the list held when it was emptied)
+        after = None
+        if err is None:
+            live = cache.objects_to_save if kind == 'oflush' else spy.snapshot
+            if live is not None:
+                after = {'queue': [None if o is None else num.get(o, -1) for o in live], 'pos': [o._save_pos_ for o in objs]}
         trace, unknown, items = w.parse_trace(by_tag, by_pk, objs)
         # rows that exist when the flush starts; the hypotheses of theorem C16_fk_accepts on the real session
         HASROW = ('loaded', 'modified', 'marked_to_delete', 'inserted', 'updated')
@@ -526,7 +557,8 @@ class Run:
             if isinstance(err, core.UnresolvableCyclicDependency):
                 real['chain'] = str(err).split(': ', 1)[1].split(' -> ')
         rec = {'kind': kind, 'request': dict(ab, op='flush'), 'real': real, 'ent_of': ent_of, 'cyclic': cyclic,
-               'partial_trace': trace if err is not None else None, 'rows0': rows0, 'hyp': hyp, 'items': items}
+               'partial_trace': trace if err is not None else None, 'rows0': rows0, 'hyp': hyp, 'items': items,
+               'slots': dict(slots, ok=pos_inv(slots)), 'slots_after': after, 'top': ab['queue'][0] if kind == 'oflush' else None}
         self.records.append(rec)
         self.count('flush-point:' + kind)
         self.count('outcome:' + ('ok' if err is None else type(err).__name__))
@@ -545,6 +577,12 @@ class Run:
                 try: det['blocked_only_by_rows_deleted_in_the_same_flush'] = w.blocking_rows_are_deleted_too(objs[trace[-1][1]])
                 except Exception as e2: det['classification_error'] = repr(e2)
             self.problems.append(('flush raised %s although the pending references can be ordered' % type(err).__name__, det))
+        if err is None:
+            # "flushing succeeds" = the pending writes were emitted: nothing that was queued may still be pending
+            left = [k for k, o in enumerate(objs) if o._status_ in PENDING and (kind != 'oflush' or o is obj)]
+            if left:
+                self.problems.append(('flush returned normally but left queued objects unsaved',
+                                      {'still_pending': left, 'queue_before': slots['queue'], 'statements': trace}))
         if cyclic and err is None:
             # the backend accepted an order the engine thinks impossible: not a property violation, but the model must explain it
             self.count('cyclic-but-flushed')
@@ -677,8 +715,29 @@ def check_records(ctx, runs):
             reqs.append(rec['request']); where.append((r, rec))
     if not ctx.driver.ok:
         ctx.note('driver unavailable: correspondence skipped'); return
+    # the same flush points through the slot model (real queue bookkeeping): statements, final slots and positions
+    sreqs = [dict(rec['request'], op='slots', queue=rec['slots']['queue'], pos=rec['slots']['pos'], top=rec['top']) for r, rec in where]
+    souts = ctx.driver('C16', sreqs)
     outs = ctx.driver('C16', reqs)
-    for (r, rec), out in zip(where, outs):
+    for (r, rec), out, sout in zip(where, outs, souts):
+        if rec['slots']['ok']:
+            # C16_slots_refine on real inputs, and the final bookkeeping against the real list / _save_pos_ values
+            a = canon_model(out['ok']) if 'ok' in out else {k: v for k, v in out.items()}
+            b = canon_model(sout['ok']) if 'ok' in sout else {k: v for k, v in sout.items()}
+            if a != b:
+                ctx.divergence('slot model and abstract model disagree although PosInv holds (contradicts C16_slots_refine)', rec['request'], model=a, impl=b)
+            ctx.count('slots:refinement-checked')
+            if 'ok' in sout and rec['slots_after'] is not None:
+                got = {'queue': sout['queue'], 'pos': sout['pos']}
+                if got != rec['slots_after']:
+                    ctx.divergence('objects_to_save / _save_pos_ after the real %s differ from the slot model' % ('obj.flush()' if rec['top'] is not None else 'flush()'),
+                                   {'spec': r.spec, 'history': r.hist, 'request': sreqs[where.index((r, rec))], 'strict': r.strict}, model=got, impl=rec['slots_after'])
+                ctx.count('slots:final-queue-compared:' + ('obj.flush' if rec['top'] is not None else 'flush'))
+                if any(q is not None for q in got['queue']): ctx.count('slots:objects-left-in-queue-after-obj.flush')
+                if len(got['queue']) < len(rec['slots']['queue']): ctx.count('branch:slot-popped')
+                if None in got['queue']: ctx.count('branch:slot-set-to-None')
+        else:
+            ctx.count('slots:pos-inv-fails-on-real-session')
         real = rec['real']; names = ['E%d' % e for e in rec['ent_of']]
         if 'ok' in out:
             model = {'ok': canon_model(out['ok'])}
